@@ -312,6 +312,60 @@ class Endpoint:
             self._register(sa)
         return list(self.sent)
 
+    def loop_many(self, events):
+        """SEVERAL iterations of the real main_loop inside ONE invocation (state kept in main_loop's local variables
+        survives from one iteration to the next): events = list of ('udp', my_addr, peer_addr, data) | ('xfrm', data) |
+        ('idle',).  Returns the datagrams sent."""
+        sim = self.sim
+        self.sent = []
+        udp_socks = []
+        ctl = FakeControlSocket(self)
+        xs = FakeNetlinkSocket(self.kernel, events=[])
+
+        def socket_factory(family, typ, *a):
+            if typ == _socket.SOCK_DGRAM:
+                s = FakeUdpSocket(self)
+                udp_socks.append(s)
+                return s
+            return ctl
+        fake_socket_mod = types.SimpleNamespace(
+            socket=socket_factory, AF_INET=_socket.AF_INET, AF_INET6=_socket.AF_INET6,
+            SOCK_DGRAM=_socket.SOCK_DGRAM, SOCK_STREAM=_socket.SOCK_STREAM, SOL_SOCKET=_socket.SOL_SOCKET,
+            SO_REUSEADDR=_socket.SO_REUSEADDR, gaierror=_socket.gaierror)
+        todo = list(events)
+        self.iterations_done = 0
+
+        def fake_select(rl, wl, xl, timeout=None):
+            if not todo:
+                raise StopLoop()
+            ev = todo.pop(0)
+            self.iterations_done += 1
+            if ev[0] == 'udp':
+                for s in udp_socks:
+                    if s.addr and s.addr[0] == ev[1]:
+                        s.inbox.append((ev[3], (ev[2], 500)))
+                        return [s], [], []
+                return [], [], []
+            if ev[0] == 'xfrm':
+                xs.events.append(ev[1])
+                return [xs], [], []
+            return [], [], []
+        with sim.as_current(self), \
+                mock.patch.object(ikesacontroller, 'socket', fake_socket_mod), \
+                mock.patch.object(ikesacontroller, 'select', fake_select), \
+                mock.patch.object(xfrm.Xfrm, 'get_socket', classmethod(lambda cls: xs)):
+            try:
+                self.controller.main_loop()
+            except StopLoop:
+                pass
+            except BaseException as ex:
+                if isinstance(ex, (KeyboardInterrupt, SystemExit, MemoryError)):
+                    raise
+                raise LoopEscape(ex)
+        for sa in self.controller.ike_sas:
+            self._register(sa)
+        return list(self.sent)
+
     def _register(self, sa):
         if id(sa) not in self.creation:
             self.creation[id(sa)] = len(self.creation)
@@ -425,6 +479,8 @@ class Sim:
         self.log_records = []
         self.dh_log = []           # (endpoint, group) for every DiffieHellman.from_group
         self.secrets = []          # (label, bytes) learnt by wrapping the key generation
+        self.slept = 0.0           # seconds the real code asked to sleep (virtual)
+        self.max_sleep = 0.0
         self.forced_urandom = []   # (endpoint name or None, bytes): the next os.urandom(len(bytes)) there returns it
 
     # -- environment ------------------------------------------------------------------------
@@ -460,6 +516,12 @@ class Sim:
         st.enter_context(mock.patch('os.urandom', urandom))
         st.enter_context(mock.patch.object(message, 'SystemRandom', SysRand))
         st.enter_context(mock.patch('time.time', now))
+
+        def sleep(dt):
+            # virtual: the time main_loop spends asleep is time away from select() (judged by C17)
+            sim.slept += max(0.0, float(dt))
+            sim.max_sleep = max(sim.max_sleep, float(dt))
+        st.enter_context(mock.patch('time.sleep', sleep))
         st.enter_context(mock.patch('random.uniform', uniform))
         st.enter_context(mock.patch('random.randint', randint))
         st.enter_context(mock.patch('os.getpid', lambda: 4242))
